@@ -476,14 +476,16 @@ def make_fn(th):
         ctx.check("fn/C10:only-after-an-unset-stop-was-read", bool(th.active), props=["C10"])
         th.step("start", {"started": insert(w.started, th.me)})
         th.establish("fn-entry(started+=me)", ("G2",))
-        o = ctx.choose(3, "fn")
+        o = ctx.choose(5, "fn")
         if o == 0:
             w = th.interfere("w.fnret")
             th.step("complete", {"completed": insert(w.completed, th.me), "active": G.remove(w.active, th.me)})
             th.active = False
             th.establish("fn-return(completed+=me)", ("G1", "G2", "G6"))
             return None
-        th.exc = UserExc("boom") if o == 1 else UserBaseExc("boom")
+        # an ordinary exception, a BaseException of the user's own, or one of the interpreter's exit requests raised by user code (sys.exit() in a
+        # call, Ctrl-C delivered while it runs on this thread): none of them may escape process_node - a dead worker records nothing
+        th.exc = (UserExc("boom"), UserBaseExc("boom"), SystemExit("boom"), KeyboardInterrupt())[o - 1]
         raise th.exc
 
     return fn
